@@ -110,6 +110,9 @@ func peach(fm *Frame, opts peachOpt, f Callable, inputs Inputs) error {
 	var broken int32
 	var errMu sync.Mutex
 	var err error
+	// Set by the feeder when it gave up waiting for a worker slot because the
+	// context was canceled.
+	interrupted := false
 
 	var workerSema *semaphore.Weighted
 	numWorkers, limited, err := parseNumWorkers(opts.NumWorkers)
@@ -128,8 +131,23 @@ func peach(fm *Frame, opts peachOpt, f Callable, inputs Inputs) error {
 		}
 		if workerSema != nil {
 			verifTrace(fm.Evaler, fm, "peach.acquire-enter")
-			workerSema.Acquire(ctx, 1)
+			acquireErr := workerSema.Acquire(ctx, 1)
 			verifTrace(fm.Evaler, fm, "peach.acquire-return")
+			if acquireErr != nil {
+				// The context was canceled while waiting for a worker slot.
+				// No permit is held: stop feeding, and don't spawn a worker
+				// that would exceed the limit and release a permit it never
+				// acquired.
+				atomic.StoreInt32(&broken, 1)
+				interrupted = true
+				return
+			}
+			if atomic.LoadInt32(&broken) != 0 {
+				// A callback broke or failed while we were waiting for the
+				// slot. Like each, don't call the callback again.
+				workerSema.Release(1)
+				return
+			}
 		}
 		verifTrace(fm.Evaler, fm, "peach.spawn")
 		wg.Add(1)
@@ -159,6 +177,9 @@ func peach(fm *Frame, opts peachOpt, f Callable, inputs Inputs) error {
 		}()
 	})
 	wg.Wait()
+	if interrupted && err == nil {
+		return ErrInterrupted
+	}
 	return err
 }
 
